@@ -13,6 +13,10 @@ def canon_bits(b):
         return CANON_NAN
     return b
 
+def coeff_bits(coeffs):
+    """the coefficients as a tuple of (re bits, im bits): distinguishes -0.0 from 0.0"""
+    return tuple((f64_bits(complex(c).real), f64_bits(complex(c).imag)) for c in coeffs)
+
 def line_for(elt, coeffs, refine, dumplog):
     return "roots.solve %s %d %d" % (tok_vec(elt, coeffs), 1 if refine else 0, 1 if dumplog else 0)
 
@@ -99,17 +103,21 @@ class LazyTerm:
     cache = None
     lock = threading.Lock()      # run_coq prints the shards from several threads
     def __init__(self, elt, coeffs, refine):
-        self.key = (elt, tuple(coeffs), bool(refine))
+        # the identity of a case is the BIT PATTERN of its coefficients: -0.0 == 0.0 in python, but the two are
+        # different inputs (different recorded libm arguments), so the key carries the bits, not the values
+        self.coeffs = list(coeffs)
+        self.key = (elt, coeff_bits(coeffs), bool(refine))
         LazyTerm.registry.append(self)
         LazyTerm.cache = None
     @classmethod
     def fill(cls):
         keys = []
+        todo = []
         seen = set()
         for t in cls.registry:
             if t.key not in seen:
-                seen.add(t.key); keys.append(t.key)
-        answers = run_logs([(e, list(c), r) for (e, c, r) in keys])
+                seen.add(t.key); keys.append(t.key); todo.append((t.key[0], list(t.coeffs), t.key[2]))
+        answers = run_logs(todo)
         cls.cache = dict(zip(keys, answers))
     @classmethod
     def answer(cls, key):
@@ -121,11 +129,11 @@ class LazyTerm:
         a = LazyTerm.answer(self.key)
         return a["log"] or []
     def __str__(self):
-        elt, coeffs, refine = self.key
-        return model_term(elt, list(coeffs), refine, self.log(), trace=False)
+        elt, _, refine = self.key
+        return model_term(elt, list(self.coeffs), refine, self.log(), trace=False)
     def trace_term(self):
-        elt, coeffs, refine = self.key
-        return model_term(elt, list(coeffs), refine, self.log(), trace=True)
+        elt, _, refine = self.key
+        return model_term(elt, list(self.coeffs), refine, self.log(), trace=True)
 
 IMPORTS = "From OV Require Import Model.Roots."
 
